@@ -145,6 +145,100 @@ def conv(x, dtype):
     return np.array([int(v) for v in x['a']], dtype=dtype if dtype not in ('npscalar',) else 'i4')
 
 
+def make_arg(x, store):
+    """request argument in a given storage: -> (object passed to pydl, watch list of (label, object, snapshot))
+    store: 'int' | 'np:<dt>' (numpy scalar) | '0d:<dt>' | 'list' | 'tuple' | '<dt>' | 'nc:<dt>' (non-contiguous view)
+           | 'ro:<dt>' (read-only array); <dt> any numpy integer dtype string incl. big-endian ('>i4')"""
+    if x is None:
+        return None, []
+    if 's' in x:
+        v = int(x['s'])
+        if store in (None, 'int', 'list', 'tuple') or not isinstance(store, str):
+            return v, []
+        if store == 'npscalar':
+            return np.int32(v), []
+        if store.startswith('np:'):
+            return np.dtype(store[3:]).type(v), []
+        if store.startswith('0d:'):
+            a = np.array(v, dtype=store[3:])
+            return a, [a]
+        return v, []
+    vals = [int(v) for v in x['a']]
+    if store in (None, 'list', 'int', 'npscalar') or store.startswith('np:') or store.startswith('0d:'):
+        lst = list(vals)
+        return lst, [lst]
+    if store == 'tuple':
+        return tuple(vals), []
+    if store.startswith('nc:'):
+        big = np.full(2 * len(vals) + 1, 7, dtype=store[3:])
+        big[1::2] = vals
+        return big[1::2], [big]
+    if store.startswith('ro:'):
+        a = np.array(vals, dtype=store[3:])
+        a.flags.writeable = False
+        return a, [a]
+    a = np.array(vals, dtype=store)
+    return a, [a]
+
+
+def make_img(rows, store):
+    """2-d array in a given storage: '<dt>' | 'nc:<dt>' (every other column of a wider array) | 'ncr:<dt>' (every other row)
+    | 'F:<dt>' (Fortran order) | 'ro:<dt>' (read-only) -> (array, base to watch)"""
+    kind, _, dt = store.rpartition(':')
+    if kind == 'nc':
+        big = np.full((len(rows), 2 * len(rows[0]) + 1), 7, dtype=dt)
+        big[:, 1::2] = rows
+        return big[:, 1::2], big
+    if kind == 'ncr':
+        big = np.full((2 * len(rows) + 1, len(rows[0])), 7, dtype=dt)
+        big[1::2, :] = rows
+        return big[1::2, :], big
+    a = np.array(rows, dtype=dt)
+    if kind == 'F':
+        a = np.asfortranarray(a)
+    if kind == 'ro':
+        a.flags.writeable = False
+    return a, a
+
+
+def make_shift(v, store):
+    if v is None:
+        return None
+    if store in (None, 'int'):
+        return int(v)
+    if store.startswith('np:'):
+        return np.dtype(store[3:]).type(v)
+    if store.startswith('0d:'):
+        return np.array(v, dtype=store[3:])
+    return int(v)
+
+
+def snap(o):
+    if isinstance(o, np.ndarray):
+        return (o.tobytes(), o.dtype.str, o.shape, o.strides)
+    return list(o)
+
+
+def unchanged(o, s):
+    return snap(o) == s
+
+
+def leaves(r):
+    """all ndarrays of a readspec result, by name"""
+    out = {}
+    for k, v in r.items():
+        if isinstance(v, dict):
+            for c, w in v.items():
+                if isinstance(w, np.ndarray):
+                    out['%s.%s' % (k, c)] = w
+        elif isinstance(v, np.ndarray):
+            out[k] = v
+    return out
+
+
+PREV = []    # the results of the last two readspec calls of this process: (leaves, copies)
+
+
 def run_call(c):
     for k in ENV_KEYS:
         os.environ.pop(k, None)
@@ -152,19 +246,38 @@ def run_call(c):
         os.environ[k] = v
     kw = dict(c['kwargs'])
     args = {}
+    st = c.get('store') or {k: c.get('dtype', 'i4') for k in ('plate', 'mjd', 'fiber')}
+    watch = []
     if c.get('mjd') is not None:
-        args['mjd'] = conv(c['mjd'], c.get('dtype', 'i4'))
+        args['mjd'], w = make_arg(c['mjd'], st.get('mjd'))
+        watch += w
     if c.get('fiber') is not None:
-        args['fiber'] = conv(c['fiber'], c.get('dtype', 'i4'))
-    plate = conv(c['plate'], c.get('dtype', 'i4'))
+        args['fiber'], w = make_arg(c['fiber'], st.get('fiber'))
+        watch += w
+    plate, w = make_arg(c['plate'], st.get('plate'))
+    watch += w
+    snaps = [snap(o) for o in watch]
     del OPENED[:]
     try:
         with warnings.catch_warnings():
             warnings.simplefilter('ignore')
             r = readspec(plate, **args, **kw)
     except Exception as e:  # noqa: BLE001 - the error class is the observation
-        return {'err': type(e).__name__, 'msg': str(e)[:200], 'opened': list(OPENED)}
+        return {'err': type(e).__name__, 'msg': str(e)[:200], 'opened': list(OPENED),
+                'inputs_untouched': all(unchanged(o, s_) for o, s_ in zip(watch, snaps))}
     out = {'keys': sorted(r.keys()), 'arrays': [], 'names': [], 'bad': [], 'opened': list(OPENED)}
+    # caller-owned arguments bit-identical; the result shares no memory with them nor with earlier results,
+    # and earlier results still hold what they held
+    lv = leaves(r)
+    out['inputs_untouched'] = all(unchanged(o, s_) for o, s_ in zip(watch, snaps))
+    arrs = [o for o in watch if isinstance(o, np.ndarray)]
+    out['aliases_input'] = sorted(n for n, a in lv.items() if any(np.may_share_memory(a, o) and np.shares_memory(a, o) for o in arrs))
+    out['aliases_earlier'] = sorted(n for n, a in lv.items() for pl, _ in PREV
+                                    if any(np.may_share_memory(a, o) and np.shares_memory(a, o) for o in pl.values()))
+    out['earlier_changed'] = sorted(n for pl, cp in PREV for n, a in pl.items()
+                                    if a.shape != cp[n].shape or a.tobytes() != cp[n].tobytes())
+    PREV.append((lv, {n: a.copy() for n, a in lv.items()}))
+    del PREV[:-2]
 
     max_rows = int(c.get('max_rows', 1 << 30))
 
@@ -200,22 +313,65 @@ def run_call(c):
     return out
 
 
+def call_append(a, b, shift, kwshift):
+    if shift is None:
+        return spec_append(a, b)
+    if kwshift:
+        return spec_append(a, b, pixshift=shift)
+    return spec_append(a, b, shift)
+
+
+def img_rows(r):
+    return to_int_rows(r) if r.ndim == 2 and r.shape[1] > 0 else [[] for _ in range(r.shape[0])]
+
+
 def run_append(c):
-    a = np.array(c['a'], dtype=c.get('dtype', 'i8'))
-    b = np.array(c['b'], dtype=c.get('dtype', 'i8'))
+    a, abase = make_img(c['a'], c.get('a_store') or c.get('dtype', 'i8'))
+    b, bbase = make_img(c['b'], c.get('b_store') or c.get('dtype', 'i8'))
+    sa, sb = snap(abase), snap(bbase)
     try:
-        if c.get('shift') is None:
-            r = spec_append(a, b)
-        elif c.get('kwshift'):
-            r = spec_append(a, b, pixshift=int(c['shift']))
-        else:
-            r = spec_append(a, b, int(c['shift']))
+        with warnings.catch_warnings():
+            warnings.simplefilter('ignore')
+            r = call_append(a, b, make_shift(c.get('shift'), c.get('shift_store')), c.get('kwshift'))
     except Exception as e:  # noqa: BLE001
         return {'err': type(e).__name__, 'msg': str(e)[:200]}
-    rows = to_int_rows(r) if r.ndim == 2 and r.shape[1] > 0 else [[] for _ in range(r.shape[0])]
+    if not isinstance(r, np.ndarray) or r.ndim != 2:
+        return {'err': 'NotA2dArray', 'msg': repr(type(r))}
+    rows = img_rows(r)
+    if rows is None:
+        return {'err': 'NonIntegerOutput', 'msg': str(r.dtype)}
     return {'ok': rows, 'dtype': str(r.dtype), 'same_dtype': bool(r.dtype == a.dtype),
-            'inputs_untouched': bool(np.array_equal(a, np.array(c['a'], dtype=a.dtype)) and
-                                     np.array_equal(b, np.array(c['b'], dtype=b.dtype)))}
+            'inputs_untouched': bool(unchanged(abase, sa) and unchanged(bbase, sb)),
+            'aliases_input': bool(np.shares_memory(r, abase) or np.shares_memory(r, bbase))}
+
+
+def run_append_history(h):
+    """a pool of caller-owned arrays; every operation appends two pool members (inputs or earlier results) and stores the
+    result in the pool: all other pool members must stay bit-identical and the result must not share memory with them"""
+    pool, bases = {}, {}
+    for name, spec in h['pool'].items():
+        pool[name], bases[name] = make_img(spec['rows'], spec['store'])
+    out = []
+    for op in h['ops']:
+        if op['a'] not in pool or op['b'] not in pool:
+            out.append({'err': 'Skipped', 'msg': 'an earlier operation failed'})
+            continue
+        snaps = {n: snap(x) for n, x in bases.items()}
+        try:
+            with warnings.catch_warnings():
+                warnings.simplefilter('ignore')
+                r = call_append(pool[op['a']], pool[op['b']], make_shift(op.get('shift'), op.get('shift_store')), op.get('kwshift'))
+        except Exception as e:  # noqa: BLE001
+            out.append({'err': type(e).__name__, 'msg': str(e)[:200]})
+            continue
+        if not isinstance(r, np.ndarray) or r.ndim != 2 or img_rows(r) is None:
+            out.append({'err': 'BadOutput', 'msg': repr(type(r))})
+            continue
+        out.append({'ok': img_rows(r), 'dtype': str(r.dtype), 'same_dtype': bool(r.dtype == pool[op['a']].dtype),
+                    'pool_changed': sorted(n for n, x in bases.items() if not unchanged(x, snaps[n])),
+                    'aliases_pool': sorted(n for n, x in bases.items() if np.shares_memory(r, x))})
+        pool[op['out']] = bases[op['out']] = r
+    return out
 
 
 def run_specpath(c):
@@ -244,6 +400,8 @@ def main():
                     build_tree(t)
                 rs.append(run_call(c))
             results.append(rs)
+        elif job['kind'] == 'append_history':
+            results.append([run_append_history(h) for h in job['histories']])
         elif job['kind'] == 'specpath':
             results.append([run_specpath(c) for c in job['cases']])
         else:
